@@ -73,13 +73,54 @@ func generate(w *mon.W) {
 			seq = append(seq, kinds[rng.Intn(len(kinds))])
 		}
 		g := &gen.PipeGen{Rng: rng, DetSort: 80}
+		var lets []pipecheck.Let
+		if i%6 == 0 {
+			// let bindings used as row counts and inside expressions
+			lets = []pipecheck.Let{{Name: "pn", X: Num([]string{"1", "2", "3"}[rng.Intn(3)])}, {Name: "pthr", X: Parenthesize(Bin("-", Name("pn"), Num("1")), nil)}}
+			g.Bound = map[gen.Ty][]string{gen.TInt: {"pn", "pthr"}}
+			if rng.Intn(2) == 0 {
+				lets = append(lets, pipecheck.Let{Name: "psv", X: StrLit("Ab", false)}, pipecheck.Let{Name: "pneg", X: Un("-", Num("1"))})
+				g.Bound[gen.TStr] = []string{"psv"}
+				g.Bound[gen.TInt] = append(g.Bound[gen.TInt], "pneg")
+			}
+		}
 		p, _ := g.Pipe("T", seq, 0)
-		c := &pipecheck.Case{Pipe: p}
+		if i%5 == 0 && len(p.Ops) > 0 {
+			// write one operator twice, verbatim, where that is well-formed
+			k := rng.Intn(len(p.Ops))
+			switch p.Ops[k].K {
+			case "where", "sort", "take", "top", "count":
+				p.Ops = append(p.Ops[:k+1:k+1], append([]*Op{p.Ops[k]}, p.Ops[k+1:]...)...)
+			case "project":
+				self := true
+				for _, c := range p.Ops[k].Cols {
+					if c.X != nil && !(c.X.K == "bin" || c.X.K == "call") {
+						self = false
+					}
+				}
+				names := map[string]bool{}
+				for _, c := range p.Ops[k].Cols {
+					names[c.Name.Name] = true
+				}
+				for _, c := range p.Ops[k].Cols {
+					if c.X != nil {
+						for _, col := range gen.ColsOf(c.X, nil) {
+							if !names[col] {
+								self = false
+							}
+						}
+					}
+				}
+				if self {
+					p.Ops = append(p.Ops[:k+1:k+1], append([]*Op{p.Ops[k]}, p.Ops[k+1:]...)...)
+				}
+			}
+		}
+		c := &pipecheck.Case{Pipe: p, Lets: lets}
 		for k := 0; k < nInst; k++ {
 			c.Instances = append(c.Instances, rng.Int63())
 		}
-		key := Print(&Program{Stmts: []*Stmt{{Pipe: p}}}, Layout{Mode: 0}).Src
+		key := fmt.Sprint(len(lets), "|", Print(&Program{Stmts: []*Stmt{{Pipe: p}}}, Layout{Mode: 0}).Src)
 		w.Do(key, func(r *mon.R) { pipecheck.Check(c, r, "C02") })
 	}
-	_ = fmt.Sprint
 }
